@@ -8,8 +8,11 @@ Driver for C43. One case = one DDL history over an empty database, observed at i
   ddl := (ct xT (cols (c xN xTYPE 0|1 null|xDEFAULT)…) (pk xC…) (idxs (i xN 0|1 xC…)…)) | (dt xT)
        | (ac xT (c …) last|first|(after xC)) | (dc xT xC) | (rc xT xOLD xNEW) | (ci xT (i …)) | (di xT xN)
        | (apk xT xC…) | (dpk xT) | (cv xN xTEXT) | (dv xN) | (ctr xN xT xTIMING xEVENT) | (dtr xN)
+       | (cp xN (chr det|notdet|contains|nosql|reads|modifies…) 0|1) | (dp xN)
 Answer: which statements were accepted + every modelled view (rows sorted), for the code's rules
-(`columnKeysImpl`, empty TRIGGERS/VIEWS without a privilege set) and for the property's.
+(`columnKeysImpl`, empty TRIGGERS/VIEWS/ROUTINES without a privilege set, the ROUTINES loop with its
+carried variables, the PRIMARY KEY clause through the ordinals) and for the property's.
+  (objs …) and (casevariant) are oracle-only cases of the harness (outside the model).
 -/
 
 def strOf (x : Sexp) : Option String := (x.bytes?).bind fun bs => String.fromUTF8? (ByteArray.mk bs.toArray)
@@ -32,6 +35,15 @@ def parsePos : Sexp → Option Pos
   | .list [.atom "after", c] => (strOf c).map .after
   | _ => none
 
+def parseChr : Sexp → Option Chr
+  | .atom "det" => some .det
+  | .atom "notdet" => some .notDet
+  | .atom "contains" => some .containsSql
+  | .atom "nosql" => some .noSql
+  | .atom "reads" => some .readsSql
+  | .atom "modifies" => some .modifiesSql
+  | _ => none
+
 def parseDdl : Sexp → Option Ddl
   | .list [.atom "ct", n, .list (.atom "cols" :: cols), .list (.atom "pk" :: pk), .list (.atom "idxs" :: idxs)] => do
     some (.createTable ⟨← strOf n, ← cols.mapM parseCol, ← pk.mapM strOf, ← idxs.mapM parseIdx⟩)
@@ -47,6 +59,9 @@ def parseDdl : Sexp → Option Ddl
   | .list [.atom "dv", n] => (strOf n).map .dropView
   | .list [.atom "ctr", n, t, tm, ev] => do some (.createTrigger ⟨← strOf n, ← strOf t, ← strOf tm, ← strOf ev⟩)
   | .list [.atom "dtr", n] => (strOf n).map .dropTrigger
+  | .list [.atom "cp", n, .list (.atom "chr" :: chars), inv] => do
+    some (.createProc ⟨← strOf n, ← chars.mapM parseChr, (← inv.nat?) != 0⟩)
+  | .list [.atom "dp", n] => (strOf n).map .dropProc
   | _ => none
 
 def insertStr (a : String) : List String → List String
@@ -72,7 +87,13 @@ def sortTbls (l : List Tbl) : List Tbl :=
       | u :: rest => if t.name < u.name then t :: u :: rest else u :: ins rest
     ins acc) []
 
-def observe (keys showKeys : Tbl → List String) (privMissing quoteStr : Bool) (c : Cat) : List (String × String) :=
+/-- SHOW CREATE TABLE as observed: the column names in the order printed, then the key clauses. -/
+def showCreateObs (impl : Bool) (t : Tbl) : String :=
+  "cols=" ++ ",".intercalate (showCreateCols t) ++ "/keys=" ++
+    "~".intercalate ((if impl then showCreateKeys t else t.allIdxs.map keyLine).map fun r => "|".intercalate r)
+
+def observe (impl : Bool) (keys showKeys : Tbl → List String) (privMissing quoteStr : Bool) (c : Cat) : List (String × String) :=
+  let routines := if impl then routinesView privMissing c else routinesSpec c
   [("TABLES", showRows (tablesView c)),
    ("COLUMNS", showRows (columnsView keys c)),
    ("STATISTICS", showRows (statisticsView c)),
@@ -82,16 +103,20 @@ def observe (keys showKeys : Tbl → List String) (privMissing quoteStr : Bool) 
    ("VIEWS", showRows (viewsView privMissing c)),
    ("SHOWTABLES", showRows (showTables c)),
    ("SHOWFULL", showRows (tablesView c)),
-   ("SHOWTRIG", showRows (showTriggers c))] ++
+   ("SHOWTRIG", showRows (showTriggers c)),
+   ("ROUTINES", showRows routines),
+   ("SHOWPROCS", showRows (showProcStatus routines))] ++
   (sortTbls c.tables).flatMap fun t =>
     [("SHOWCOLS:" ++ t.name, "~".intercalate ((showColumns quoteStr showKeys t).map fun r => "|".intercalate r)),
-     ("SHOWIDX:" ++ t.name, "~".intercalate ((showIndex t).map fun r => "|".intercalate r))]
+     ("SHOWIDX:" ++ t.name, "~".intercalate ((showIndex t).map fun r => "|".intercalate r)),
+     ("SHOWCREATE:" ++ t.name, showCreateObs impl t)]
 
 def render (ddl : String) (parts : List (String × String)) : String :=
   "ddl=" ++ ddl ++ ";" ++ ";".intercalate (parts.map fun (k, v) => k ++ "=" ++ v)
 
 def regionOf (key : String) : String :=
   if key = "TRIGGERS" || key = "VIEWS" then "no_privilege_set_views_triggers_empty"
+  else if key = "ROUTINES" || key = "SHOWPROCS" then "no_privilege_set_routines_empty"
   else if key = "COLUMNS" then "column_key_composite_or_shared_index"
   else if key.startsWith "SHOWCOLS:" then "show_columns_string_default_quoted"
   else "unclassified"
@@ -103,8 +128,8 @@ def handle (p : List Sexp) : String :=
     | none => answer "bad-case"
     | some h =>
       let (c, flags) := runHist Cat.empty h ""
-      let io := observe columnKeysImpl columnKeysSpec (mode == "noacct") true c
-      let so := observe columnKeysSpec columnKeysSpec false false c
+      let io := observe true columnKeysImpl columnKeysSpec (mode == "noacct") true c
+      let so := observe false columnKeysSpec columnKeysSpec false false c
       let i := render flags io
       let s := render flags so
       if i == s then answer i
@@ -114,6 +139,7 @@ def handle (p : List Sexp) : String :=
           | none => "unclassified"
         answer i s region
   | [.list [.atom "casevariant"]] => answer "casevariant"   -- oracle-only corpus case (outside the model)
+  | [.list (.atom "objs" :: _)] => answer "objs"             -- oracle-only: per-object rows vs. the object alone
   | _ => answer "bad-case"
 
 def main : IO Unit := runPure handle
